@@ -111,7 +111,7 @@ pub struct Interp<'a> {
     /// to a property this engine does not judge and the books cannot follow)
     pub(crate) skip_rest: bool,
     /// execution intervals of resize() calls on a logical clock: (start, end, target)
-    pub(crate) resize_hist: Vec<(u64, Option<u64>, usize)>,
+    pub(crate) resize_hist: Vec<(u64, Option<u64>, usize, bool)>,
     pub(crate) tick: u64,
     pub(crate) known: Vec<String>,
     pub(crate) labels: Vec<String>,
@@ -410,6 +410,11 @@ impl<'a> Interp<'a> {
         if !matches!(s, Step::OpenGate { .. } | Step::Status | Step::Poll { .. } | Step::PollWoken { .. } | Step::Cancel { .. }) {
             self.disturb += 1;
         }
+        if !matches!(s, Step::Resize { .. } | Step::Status | Step::StatusAt { .. })
+            && !(matches!(s, Step::Resume { .. }) && self.parked.iter().all(|p| matches!(p.kind, PKind::Resize(_))))
+        {
+            self.c07.non_resize_in_stretch = true;
+        }
         match s {
             Step::StartGet { zero_wait, pause } => self.start_get(zero_wait, pause),
             Step::Poll { g, pause } => {
@@ -661,6 +666,7 @@ impl<'a> Interp<'a> {
     }
 
     pub(crate) fn poll_get(&mut self, g: usize, pause: Option<u8>) {
+        self.c07.non_resize_in_stretch = true;
         let op = self.gets[g].op;
         let Some(mut fut) = self.gets[g].fut.take() else { return };
         let flag = self.gets[g].flag.clone();
@@ -1296,7 +1302,18 @@ impl<'a> Interp<'a> {
         self.resize_started = true;
         self.events_for_rest += 1;
         self.tick += 1;
-        self.resize_hist.push((self.tick, None, n));
+        // "clean" start: at least fully populated, everything idle, nothing in flight but resizes - none
+        // of the preconditions of the known resize findings (unused capacity, objects out,
+        // a return or take caught between its unlock and its permit) is present
+        let clean = {
+            let only_resizes_parked = self.parked.iter().all(|p| matches!(p.kind, PKind::Resize(_)));
+            let no_gets = !self.gets.iter().any(|g| g.is_inside());
+            match self.snapshot() {
+                Some(sn) => only_resizes_parked && no_gets && self.held.is_empty() && sn.size == sn.idle && sn.size >= sn.max_size && sn.users == 0,
+                None => false,
+            }
+        };
+        self.resize_hist.push((self.tick, None, n, clean));
         let before = if self.quiescent() { self.snapshot() } else { None };
         match pause {
             None => {
@@ -1353,8 +1370,10 @@ impl<'a> Interp<'a> {
         self.tick += 1;
         let now = self.tick;
         let mut rivals: Vec<usize> = vec![];
+        let mut clean_start = false;
         if let Some(i) = self.resize_hist.iter().position(|e| e.1.is_none() && e.2 == n) {
             self.resize_hist[i].1 = Some(now);
+            clean_start = self.resize_hist[i].3;
             let start = self.resize_hist[i].0;
             for (j, e) in self.resize_hist.iter().enumerate() {
                 if j != i && e.1.map(|end| end > start).unwrap_or(true) {
@@ -1362,6 +1381,7 @@ impl<'a> Interp<'a> {
                 }
             }
         }
+        let n_called = n;
         let n = match after {
             Some(a) if a.max_size != n && rivals.contains(&a.max_size) => {
                 self.label("resize:overlapping-resize-won");
@@ -1386,7 +1406,7 @@ impl<'a> Interp<'a> {
             }
         }
         let (b, a) = (before, after);
-        self.c07_resized(n, b, a);
+        self.c07_resized(n, n_called, b, a, clean_start);
     }
 
     pub(crate) fn close(&mut self, pause: Option<u8>) {
@@ -1923,6 +1943,9 @@ impl<'a> Interp<'a> {
     pub(crate) fn finish(&mut self) {
         self.disturb += 2; // no isolated call survives the settling phase
         self.note("finish: resume parked operations".into());
+        if self.parked.iter().any(|p| !matches!(p.kind, PKind::Resize(_))) || self.gets.iter().any(|g| g.state == GState::Pending && g.flag.is_set()) {
+            self.c07.non_resize_in_stretch = true;
+        }
         while !self.parked.is_empty() && self.violation.is_none() && self.inconclusive.is_none() {
             self.resume(0, None);
             self.check_always("while settling");
